@@ -60,7 +60,7 @@ def extract(g, X):
     def hexws():
         b = X.fn_body(strl, "next_non_whitespace_char")
         m = re.search(r"while\s+(.*?)\{", b, flags=re.S)
-        vals = [X.lit(t) for t in re.findall(r"byte\s*==\s*(" + X.LIT + r")", m.group(1))]
+        vals = [X.lit(t) for t in re.findall(r"\w+\s*==\s*(" + X.LIT + r")", m.group(1))]
         if not vals:
             raise ValueError("no white-space bytes")
         return cl(vals)
@@ -136,7 +136,7 @@ def extract(g, X):
         second_loop = b[b.index(arms[1][0]):b.index(arms[2][0])]
         if first_loop.count("parse_with_lexer(") != 2 or second_loop.count("parse_with_lexer(") != 3:
             raise ValueError("parse_cmap loop shapes")
-        last = re.search(r"if\s+\*last\s*<\s*(\d+)\s*\{\s*\*last\s*\+=\s*(\d+)\s*;", second_loop)
+        last = re.search(r"if\s+\*\w+\s*<\s*(\d+)\s*\{\s*\*\w+\s*\+=\s*(\d+)\s*;", second_loop)
         if last.group(2) != "1":
             raise ValueError("range increment")
         return cl(rust_str(arms[0][0])), cl(rust_str(arms[1][0])), cl(rust_str(arms[2][0])), last.group(1)
@@ -151,14 +151,14 @@ def extract(g, X):
 
     def wcid():
         b = X.fn_body(font, "write_cid")
-        m = re.search(r'write!\(\s*w\s*,\s*"(.)\{:0(\d)([Xx])\}(.)"\s*,\s*cid\s*\)', b)
+        m = re.search(r'write!\(\s*\w+\s*,\s*"(.)\{:0(\d)([Xx])\}(.)"\s*,\s*\w+\s*\)', b)
         return str(ord(m.group(1))), m.group(2), ("1" if m.group(3) == "X" else "0"), str(ord(m.group(4)))
     g.attempt([("font_wcid_open", "N"), ("font_wcid_digits", "N"), ("font_wcid_upper", "N"), ("font_wcid_close", "N")],
               "font: font.rs:write_cid", wcid)
 
     def wuni():
         b = X.fn_body(font, "write_unicode")
-        lits = re.findall(r'write!\(\s*out\s*,\s*(' + STR + r')', b)
+        lits = re.findall(r'write!\(\s*\w+\s*,\s*(' + STR + r')', b)
         if len(lits) != 3:
             raise ValueError("write_unicode literals %r" % (lits,))
         m = re.fullmatch(r'"\{:0(\d)([Xx])\}"', lits[1])
@@ -172,7 +172,7 @@ def extract(g, X):
     def wcmap():
         b = X.fn_body(font, "write_cmap")
         toks = []
-        for m in re.finditer(r'(writeln|write)!\(\s*buf\s*(?:,\s*(' + STR + r'))?\s*\)', b):
+        for m in re.finditer(r'(writeln|write)!\(\s*\w+\s*(?:,\s*(' + STR + r'))?\s*\)', b):
             s = rust_str(m.group(2)) if m.group(2) else []
             if m.group(1) == "writeln":
                 s = s + [10]
